@@ -20,6 +20,8 @@ CORPUS = [
     # branch reachable (self-service bootstrap OTP by mail, password login): rows unchanged, no mail
     ["reset", "ostale t0 1 0 7", "ostale slow 2 0 2", "ostale down 3 0 4", "ostale slow 4 8 1", "ostale t0 5 6 3",
      "ostale slow 6 7 0", "ostale up 7 0 0", "ostale up 8 6 6", "ostale up 9 8 8", "sync -"],
+    # addUser of a user that exists in the cache answers 400 "User exists" (not a write): no alarm
+    ["reset", "ostale t0 7 17 11", "sync -", "ostale t0 7 16 6"],
     ["reset", "flap mgU2F 1 7", "flap genTOTP 2 2", "flap addUser 3 0", "flap deleteUser 4 5", "sync -"],
 ]
 OFFS = [-4500, 5500, 5500, 20500, 100500]
@@ -176,7 +178,7 @@ def run(ctx):
         rp = json.load(open(ctx.replay))
         hists = [v["replay"]["history"] for v in rp.get("violations", []) if "history" in v.get("replay", {})] or CORPUS
     else:
-        n, length, heavy = (26, 22, 0.03) if ctx.quick() else (420, 40, 0.05)
+        n, length, heavy = (26, 22, 0.03) if ctx.quick() else (300, 40, 0.05)
         hists = [list(h) for h in CORPUS] + [gen_history(ctx.rng, ctx.rng.randint(length // 2, length), heavy) for _ in range(n)]
     res = run_histories(ctx, hists, "h")
     if res is None:
